@@ -36,9 +36,18 @@ TARGETS = [
     Target('body_read', B, r'virtual ssize_t read\(void \*buf, size_t count\) override', index=0, count=2, rules=[
         fields_rule(['m_close_delim', 'm_body_remain', 'm_partial_body_remain', 'm_partial_body_buf'], min_fires=8),
         (r'std::min\(', 'std_min(', 1), (r'\bmemcpy\(', 'memcpy_(', 1), (r'm_stream->read\(', 'STREAM_read(this->m_stream, ', 1)]),
+    Target('append_bytes_head', 'net/http/message.cpp', r'(?<=int Message::append_bytes\(uint16_t size\) \{)', region_end=r'Parser p\(', rules=[
+        (r'LOG_ERROR_RETURN\((\w+), (-?\w+),[^;]*;', r'return \2;', 1),
+        (r'std::string_view sv\(m_buf \+ m_buf_size, size\);', 'struct sv_ sv = { this->m_buf + this->m_buf_size, size };', 1),
+        (r'std::string_view whole\(([^,]+), ([^;]+)\);', r'struct sv_ whole = { \1, (size_t)(\2) };', 1),
+        (r'whole\.find\("\\r\\n\\r\\n"\)', 'sv_find_crlfcrlf(whole)', 1), (r'whole\.npos', 'SV_NPOS', 1),
+        (r'sv\.begin\(\)', 'sv.data', 1), (r'sv\.size\(\)', 'sv.len', 1),
+        (r'm_body = \{([^,]*), uint16_t\(([^}]*)\)\};', r'this->m_body = (struct rsv16){ \1, (uint16_t)(\2) };', 1),
+        fields_rule(['m_buf', 'm_buf_size', 'm_buf_capacity', 'message_status'])]),
 ]
-UNITS = {'http.c': 'http.c.in'}
+UNITS = {'msg.c': 'msg.c.in', 'http.c': 'http.c.in'}
 PROOFS = [
+    Proof('message/append_bytes', 'msg.c', 'h_append_bytes', kind='L', min_obligations=5, canaries=3),
     Proof('parser/cursor', 'http.c', 'h_parser', kind='L', min_obligations=5, backend='cadical'),
     Proof('headers/kv_add', 'http.c', 'h_kv_add', kind='L', min_obligations=3, backend='cadical'),
     Proof('headers/parse', 'http.c', 'h_parse', kind='L', min_obligations=5, backend='cadical', timeout=600),
@@ -51,4 +60,4 @@ TRUSTED = ['cbmc 6.11.0', 'lowering rules of specs/C13/spec.py']
 NOT_DECIDED = ['start-line / URL parsing, header lookup (estring_view, std::sort, case-insensitive compare)',
                'header-terminator search across fragments (Message::append_bytes)', 'chunked transfer coding reader/writer',
                'same parse for every fragmentation (claimed only through the kernels above)']
-ASSUMPTIONS = []
+ASSUMPTIONS = ['message/append_bytes: the receive buffer is preceded by at least 3 addressable bytes (the code forms income - 3 before clamping it to m_buf; strictly that pointer is undefined when fewer than 3 bytes were received, it is never dereferenced)']
